@@ -113,6 +113,16 @@ func (fc *fctx) externalCall(callee *ssa.Function, args []*Val, cc *ssa.CallComm
 	tr := fc.tr
 	key := callee.String()
 	switch key {
+	case "encoding/json.Marshal":
+		return fc.jsonMarshal(cc, pos)
+	case "encoding/json.Unmarshal":
+		if r := fc.jsonUnmarshal(cc, pos); r != nil {
+			return r
+		}
+	case "github.com/go-openapi/swag.ConcatJSON":
+		if r := fc.concatJSON(cc, pos); r != nil {
+			return r
+		}
 	case "reflect.ValueOf":
 		tr.u.decl("specfn:reflect_kind_of", "(declare-fun reflect_kind_of (Iface) Int)")
 		v := fc.freshVal("rv", callee.Signature.Results().At(0).Type())
